@@ -14,6 +14,9 @@ pub struct C08;
 
 const RX_DEFAULT: usize = 96;
 thread_local! { static RX_CELL: std::cell::Cell<usize> = const { std::cell::Cell::new(RX_DEFAULT) }; }
+// The data stalls once after this many bytes of the injected stream (the wait in progress is given
+// up there by the caller and a later one carries on): (offset, number of reads that find nothing).
+thread_local! { static STALL_CELL: std::cell::Cell<Option<(usize, u8)>> = const { std::cell::Cell::new(None) }; }
 /// Receive buffer of the current case (generative workloads vary it; enumerations use 96).
 fn rx() -> usize {
     RX_CELL.with(|c| c.get())
@@ -615,13 +618,17 @@ fn run_post(stream: &[u8], seed: u64, chunk: Chunk, with_ctx: bool) -> (RunLog, 
     if with_ctx {
         steps.extend(ctx_steps());
     }
+    let stall = STALL_CELL.with(|c| c.get());
+    if let Some((after, blocks)) = stall {
+        steps.push(Step::Broker(BrokerAct::Gate { after, blocks }));
+    }
     for f in &frames {
         steps.push(Step::Broker(BrokerAct::SendRaw(f.clone())));
     }
     if !tail.is_empty() {
         steps.push(Step::Broker(BrokerAct::SendRaw(tail.clone())));
     }
-    for _ in 0..frames.len() + 3 {
+    for _ in 0..frames.len() + 3 + stall.map_or(0, |s| s.1 as usize) {
         steps.push(poll0());
     }
     let (log, world) = run_script(&cfg, steps, seed);
@@ -769,6 +776,7 @@ impl Check for C08 {
         let mut out = CaseOut::default();
         let mut rng = Rng::new(seed);
         RX_CELL.with(|c| c.set(RX_DEFAULT));
+        STALL_CELL.with(|c| c.set(None));
         let mut one_post = |stream: &[u8], chunk: Chunk, with_ctx: bool, out: &mut CaseOut, label: &str| {
             let (log, world, frames, tail, bad) = run_post(stream, seed, chunk, with_ctx);
             let w = world.borrow();
@@ -992,7 +1000,15 @@ impl Check for C08 {
                     }
                 }
                 let chunk = *rng.pick(&[Chunk::All, Chunk::One, Chunk::Rand, Chunk::Fixed(2), Chunk::AltOneAll]);
+                // one case in three: the stream stalls somewhere (inside a header, a length, a
+                // body, or exactly between two packets); the poll() waiting there is given up and
+                // the next one carries on with what arrives later
+                if rng.chance(1, 3) && stream.len() > 1 {
+                    STALL_CELL.with(|c| c.set(Some((1 + rng.below(stream.len() - 1), 1 + rng.below(2) as u8))));
+                    out.count("streams_stalled_mid_way_and_resumed_by_a_later_poll", 1);
+                }
                 one_post(&stream, chunk, true, &mut out, "post");
+                STALL_CELL.with(|c| c.set(None));
             }
             _ => {
                 RX_CELL.with(|c| c.set(if rng.chance(1, 24) { *rng.pick(&[65535usize, 65536, 70_000, 140_000]) } else { *rng.pick(&[64usize, 96, 96, 127, 128, 129, 200]) }));
